@@ -77,6 +77,13 @@ class Pools:
             for d, names in self.by_dim.items():
                 self.by_dim_moderate[d] = [n for n in names if n in ms]
 
+    def _moderate_set(self):
+        ms = getattr(self, "_ms", None)
+        if ms is None:
+            ms = self._ms = set(self.moderate)
+            self.physical_moderate = [n for n in self.moderate if any(self.mdl.dim_of_unit(self.units[n]))]
+        return ms
+
     # ---- magnitudes ---------------------------------------------------------------------
     def magnitude(self, rng, kind=None, allow_zero=True, positive=False):
         kind = kind or rng.choice(["int", "float", "float", "decimal"])
@@ -118,15 +125,20 @@ class Pools:
             t = f if t is None else ["mul", t, f]
         return t if t is not None else ["u", "one"]
 
-    def random_factors(self, rng, max_factors=3, max_exp=3, hostile=0.35, prefix_prob=0.4):
+    def random_factors(self, rng, max_factors=3, max_exp=3, hostile=0.35, prefix_prob=0.4, physical_only=False):
         n = rng.randint(1, max_factors)
         out = []
         used = set()
+        mod = self._moderate_set()
         for _ in range(n):
             pool = None
             if self.derived_base and rng.random() < hostile:
-                pool = [x for x in (self.mixed_sign_base if rng.random() < 0.6 else self.derived_base) if x in set(self.moderate)] or None
+                pool = [x for x in (self.mixed_sign_base if rng.random() < 0.6 else self.derived_base) if x in mod] or None
+            if pool is None and physical_only:
+                pool = self.physical_moderate
             f = self.factor(rng, names=pool, max_exp=max_exp, prefix_prob=prefix_prob)
+            if self.mdl.dim_of_unit(self.units[f[1]])[-2] != 0 and f[0] and rng.random() < 0.5 and self.iec_prefixes:
+                f = (rng.choice(self.iec_prefixes), f[1], f[2])  # information units: binary prefixes too
             if f[1] in used:
                 continue
             used.add(f[1])
@@ -147,7 +159,7 @@ class Pools:
                 for i, e in enumerate(d):
                     if e == 0:
                         continue
-                    fpool = [n for n in self.fund.get(i, []) if n in set(self.moderate)]
+                    fpool = [n for n in self.fund.get(i, []) if n in self._moderate_set()]
                     if not fpool:
                         ok = False
                         break
